@@ -277,3 +277,38 @@ def extra_stage(tier, seed, tmp):
     from ..runner import suite_under_monitors
 
     return suite_under_monitors("C11", seed, tmp)
+
+
+def _dataset_case(name, single_call):
+    def f(ctx):
+        from .. import datasets
+
+        if not datasets.available(name):
+            ctx.skip("dataset file missing: " + name)
+            return
+        spec = datasets.load_spec(name, None)
+        g = M.build(spec)
+        iters = 12
+        for j in ([iters - 1] if single_call else range(iters)):
+            try:
+                M.quiet_optimize(g, max_iter=(iters if single_call else 1), tol=0.0)
+            except Exception as ex:
+                ctx.count("optimizer_exception:" + type(ex).__name__)
+                break
+            for v in g._vertices:
+                p = M.fl(v.pose)
+                if not all(math.isfinite(x) for x in p):
+                    continue
+                if isinstance(v.pose, M.PoseSE2):
+                    ctx.check("optimizer-vertex-invariant", -math.pi <= p[2] <= math.pi, {"kind": "se2", "where": "dataset:" + name}, {"theta": p[2], "iteration": j + 1})
+                elif isinstance(v.pose, M.PoseSE3):
+                    defect = abs(float(np.linalg.norm(p[3:])) - 1.0)
+                    bound = 8 * R.EPS * (j + 2)
+                    ctx.margin("optimizer-vertex-invariant", defect / bound)
+                    ctx.check("optimizer-vertex-invariant", defect <= bound, {"kind": "se3", "where": "dataset:" + name}, {"norm_defect": defect, "iteration": j + 1, "bound": bound})
+        ctx.count("dataset:" + name)
+        ctx.nontrivial("dataset-%s-%s" % (name, single_call))
+    return f
+
+
+DATASET_CASES = [_dataset_case("intel", False), _dataset_case("intel", True), _dataset_case("garage", False), _dataset_case("garage", True)]
